@@ -56,6 +56,7 @@ type Ctx struct {
 	Explain  string
 	SelfTest []SelfTestResult
 	Robust   map[string]any
+	Benign   map[string]any
 }
 
 func (c *Ctx) add(rule, construct string, st Status, pos string, msg string) {
@@ -268,6 +269,7 @@ func (c *Ctx) finish(verifDir string, t0 time.Time, seed int) int {
 			"broken":              nonNil(broken),
 			"rule_self_test":      selfTestSummary(c.SelfTest),
 			"rename_robustness":   robustOrEmpty(c.Robust),
+			"benign_refactorings": robustOrEmpty(c.Benign),
 			"checker_cmd":         "engine/junocheck -prop " + c.Prop + " -tier " + c.Tier,
 			"trusted_base":        []string{"go/types, go/ssa, go/callgraph/vta of golang.org/x/tools v0.50.0", "hand-confirmed rule tables in /verif/engine", "not followed: reflection, unsafe, cgo, assembly, goroutine interleavings"},
 			"exhaustive":          false,
